@@ -1574,7 +1574,8 @@ def run(rep, tier):
             'sweeper': cfg['sweeper'],
             'check': v['check'],
             'k_dependent_refresh': cfg.get('k') is not None,
-            'simplest_case': {kk: cfg.get(kk) for kk in ('names', 'node_type', 'quad_type', 'M', 'op', 'dt', 'tau', 'k') if cfg.get(kk) is not None or kk == 'k'},
+            # construction-level checks do not depend on operator / dt / tau: keep the signature identical across tiers
+            'simplest_case': {kk: cfg.get(kk) for kk in (('names', 'node_type', 'quad_type', 'M', 'k') if v['check'].startswith(('stored', 'outcome', 'coll.')) else ('names', 'node_type', 'quad_type', 'M', 'op', 'dt', 'tau', 'k')) if cfg.get(kk) is not None or kk == 'k'},
         }
         det = dict(v['detail'])
         det['failing_cases_in_group'] = len(vs)
